@@ -57,6 +57,7 @@ type PathResult struct {
 	Goroutines   int
 	Assumptions  map[string]bool
 	Observations []string
+	Wanted       []string
 }
 
 type CoverSample struct {
@@ -120,6 +121,9 @@ func (r *Run) addPC(c *Term) {
 	}
 	r.pcSet[c.id] = true
 	r.pc = append(r.pc, c)
+	if !r.eng.noFacts {
+		r.ctx.AddFact(c)
+	}
 }
 
 // solve checks pc ∧ extra. Returns status and (on sat) a model.
